@@ -2,7 +2,6 @@ from __future__ import annotations
 
 from datetime import timedelta
 from typing import TYPE_CHECKING
-from typing import cast
 from typing import overload
 
 import pendulum
@@ -41,6 +40,21 @@ def _divide_and_round(a: float, b: float) -> int:
         q += 1
 
     return q
+
+
+def _timedelta_to_microseconds(delta: timedelta) -> int:
+    """
+    Microseconds held by any timedelta.
+
+    Durations without years/months report their own normalized value,
+    plain timedeltas (which have no _to_microseconds()) their native one.
+    """
+    if isinstance(delta, Duration):
+        return delta._to_microseconds()
+
+    return (delta.days * SECONDS_PER_DAY + delta.seconds) * US_PER_SECOND + (
+        delta.microseconds
+    )
 
 
 class Duration(timedelta):
@@ -388,9 +402,7 @@ class Duration(timedelta):
 
         usec = self._to_microseconds()
         if isinstance(other, timedelta):
-            return cast(
-                int, usec // other._to_microseconds()  # type: ignore[attr-defined]
-            )
+            return usec // _timedelta_to_microseconds(other)
 
         if isinstance(other, int):
             return self.__class__(
@@ -415,9 +427,7 @@ class Duration(timedelta):
 
         usec = self._to_microseconds()
         if isinstance(other, timedelta):
-            return cast(
-                float, usec / other._to_microseconds()  # type: ignore[attr-defined]
-            )
+            return usec / _timedelta_to_microseconds(other)
 
         if isinstance(other, int):
             return self.__class__(
@@ -443,7 +453,7 @@ class Duration(timedelta):
 
     def __mod__(self, other: timedelta) -> Self:
         if isinstance(other, timedelta):
-            r = self._to_microseconds() % other._to_microseconds()  # type: ignore[attr-defined] # noqa: E501
+            r = self._to_microseconds() % _timedelta_to_microseconds(other)
 
             return self.__class__(0, 0, r)
 
@@ -453,7 +463,7 @@ class Duration(timedelta):
         if isinstance(other, timedelta):
             q, r = divmod(
                 self._to_microseconds(),
-                other._to_microseconds(),  # type: ignore[attr-defined]
+                _timedelta_to_microseconds(other),
             )
 
             return q, self.__class__(0, 0, r)
